@@ -1001,8 +1001,10 @@ class C01:
   RULE = ('[metrics: ' + COVERED + '] corpus, then random (metric, config, dataset, composition into <=4 shards x <=3 '
           'batches incl. empty shards/batches/all-NaN columns and batches, merge order = merge_states or a random '
           'order-preserving bracketing, object API or AggregateFn API); the program "per-shard accumulators merged" and '
-          'the program "one accumulator, one batch" run on the real code and on the Lean model; non-trivial = at least '
-          '2 non-empty batches in total; distinct = distinct canonical case JSON')
+          'the program "one accumulator, one batch" run on the real code and on the Lean model; ~8% malformed inputs '
+          '(mixed 1-D/2-D or column counts, bad histogram configs, range=None histograms, empty MinMaxAndCount batch, '
+          'result() of a never-updated ValueAccumulator) must be rejected with the model\'s error kind; non-trivial = at '
+          'least 2 non-empty batches in total (malformed: an error was raised); distinct = distinct canonical case JSON')
 
   @staticmethod
   def make_case(spec, cfg, shards, rng, api):
@@ -1022,10 +1024,66 @@ class C01:
     return dict(metric=spec.name, cfg=cfg, api=api, nshards=n, nsingle=3, prog=prog + single)
 
   @staticmethod
+  def malformed_case(rng):
+    """inputs the real code rejects: the model must reject them with the same error kind (no oracle)."""
+    how = rng.choice(['mv_dim', 'mv_k', 'cols', 'hist_cfg', 'hist_auto', 'minmax_empty', 'va_fresh_result'])
+    if how in ('mv_dim', 'mv_k'):
+      spec = SPECS[rng.choice(['meanvar', 'var', 'mean'])]
+      cfg = dict(dim=2, k=rng.randint(1, 3))
+      shards = gen_shards(spec, cfg, rng, max_shards=2)
+      bs = all_batches(shards)
+      if bs:
+        b = rng.choice(bs)
+        n = max(len(b['rows']), 1)
+        if how == 'mv_dim':
+          b.clear(); b.update(dim=1, xs=[enc(rand_val(rng)) for _ in range(n)])
+        else:
+          k2 = cfg['k'] + 1
+          b.clear(); b.update(dim=2, k=k2, rows=[[enc(rand_val(rng)) for _ in range(k2)] for _ in range(n)])
+      prog = shards_prog(spec, cfg, shards, rng, 'object')
+    elif how == 'cols':
+      spec = SPECS[rng.choice(['sampler', 'valueacc', 'tuplemeanstate'])]
+      cfg = spec.gen_cfg(rng)
+      shards = gen_shards(spec, cfg, rng, max_shards=2)
+      bs = all_batches(shards)
+      if bs:
+        b = rng.choice(bs)
+        b.append(list(b[0]))
+      prog = shards_prog(spec, cfg, shards, rng, 'object')
+    elif how == 'hist_cfg':
+      spec = SPECS['histogram']
+      cfg = rng.choice([dict(bins=0, range=[0, 1]), dict(bins=2, range=[3, 1]), dict(bins=[0, 2, 1], range=None),
+                        dict(bins=3, range=[2, 2])])
+      cfg = dict(cfg, weighted=False)
+      shards = [[dict(xs=[enc(rand_val(rng, 0, 4)) for _ in range(3)], w=None)]]
+      prog = shards_prog(spec, cfg, shards, rng, 'object')
+    elif how == 'hist_auto':
+      spec = SPECS['histogram']
+      cfg = dict(bins=rng.choice([1, 2, 4]), range=None, weighted=False)
+      pool = [[0, 1], [0, 1, Fr(1, 2)], [1, 0, 0], [0, 2], [], [None, 1], [3, 3], [Fr(1, 4), 0, 1]]
+      shards = [[dict(xs=[enc(x) for x in rng.choice(pool)], w=None) for _ in range(rng.randint(1, 2))]
+                for _ in range(rng.randint(1, 2))]
+      prog = shards_prog(spec, cfg, shards, rng, 'object')
+    elif how == 'minmax_empty':
+      spec, cfg = SPECS['minmax'], {}
+      shards = [[spec.gen_batch(rng, cfg, 2), []], [spec.gen_batch(rng, cfg, 1)]]
+      prog = shards_prog(spec, cfg, shards, rng, 'object')
+    else:
+      spec = SPECS['valueacc']
+      cfg = spec.gen_cfg(rng)
+      prog = [dict(op='make', acc=0), dict(op='make', acc=1), dict(op='merge', acc=0, other=1), dict(op='result', acc=0)]
+    return dict(metric=spec.name, cfg=cfg, api='object', malformed=how, nshards=0, nsingle=0, prog=prog)
+
+  @staticmethod
   def gen_cases(ctx):
     yield from ctx.corpus('C01_rolling')
     rng = ctx.rng
     for _ in range(2600 if ctx.quick else 60000):
+      if rng.random() < 0.08:
+        c = C01.malformed_case(rng)
+        ctx.count('C01 rolling malformed', c['malformed'])
+        yield c
+        continue
       spec = SPECS[pick_metric(rng)]
       cfg = spec.gen_cfg(rng)
       shards = gen_shards(spec, cfg, rng)
@@ -1033,7 +1091,46 @@ class C01:
         continue
       api = 'aggfn' if (spec.has_aggfn and rng.random() < 0.4) else 'object'
       ctx.count('C01 rolling metric', spec.name)
+      ctx.count('C01 rolling api', api)
+      for flag in C01.input_classes(spec, cfg, shards):
+        ctx.count('C01 rolling input class', flag)
       yield C01.make_case(spec, cfg, shards, rng, api)
+
+  @staticmethod
+  def input_classes(spec, cfg, shards):
+    """which special input classes (model branches) a composition exercises - for the evidence."""
+    out = set()
+    if any(not sh for sh in shards):
+      out.add('empty shard')
+    if shards and not shards[0]:
+      out.add('first shard empty (fresh receiver of merge_states)')
+    bs = all_batches(shards)
+    if any(spec.size(b) == 0 for b in bs):
+      out.add('empty batch')
+    if len(shards) > 1:
+      out.add('>=2 shards')
+    if spec.name in ('meanvar', 'var', 'mean'):
+      if cfg['dim'] == 2:
+        out.add('2-D')
+        k = cfg['k']
+        for b in bs:
+          if b['rows']:
+            cols = [[r[j] for r in b['rows']] for j in range(k)]
+            nan_cols = [all(x == NAN for x in c) for c in cols]
+            if all(nan_cols):
+              out.add('batch without a valid entry (guard :392)')
+            elif any(nan_cols):
+              out.add('column all-NaN in one batch (F2 class)')
+      else:
+        out.add('1-D')
+        if any(b['xs'] and all(x == NAN for x in b['xs']) for b in bs):
+          out.add('batch without a valid entry (guard :392)')
+    if spec.name == 'histogram':
+      out.add('weights' if cfg.get('weighted') else 'no weights')
+      out.add('explicit edges' if isinstance(cfg['bins'], list) else 'int bins + range')
+    if spec.name == 'valueacc':
+      out.add('concat_fn' if cfg['concat'] else 'no concat_fn')
+    return sorted(out)
 
   @staticmethod
   def run_impl(case):
@@ -1068,6 +1165,8 @@ class C01:
     """sharded/batched/merged result == one accumulator fed the whole dataset in one batch."""
     spec, cfg = SPECS[case['metric']], case['cfg']
     res = obs['results']
+    if case.get('malformed'):
+      return None       # rejected inputs: decided by the correspondence (same error kind as the model)
     if len(res) != 2 or any(isinstance(r, dict) and 'err' in r for r in res):
       return f'accumulation raised or is incomplete: {res}'
     sharded, single = res
@@ -1086,6 +1185,8 @@ class C01:
 
   @staticmethod
   def nontrivial(case, obs):
+    if case.get('malformed'):
+      return any(isinstance(r, dict) and 'err' in r for r in obs['results'])
     n = sum(1 for op in case['prog'][:-case.get('nsingle', 3)] if op['op'] == 'add' and SPECS[case['metric']].size(op['batch']) > 0)
     return n >= 2
 
